@@ -149,7 +149,51 @@ fn session_indep<T: Pixel>(sh: &mut Shards, c: &Cfg, st: u8, rng: &mut Rng) {
     sh.emit(&s);
 }
 
+/// a large 4:4:4 frame through the same session; only probed positions are logged (ev = "c09p")
+fn session_big(sh: &mut Shards, c: &Cfg, rng: &mut Rng) {
+    let (w, h) = (701usize, 523usize);
+    let px: Vec<[f32; 3]> = (0..w * h).map(|i| if i % 7 == 0 { let g = rng.unit() as f32; [g, g, g] } else { [rng.unit() as f32, rng.unit() as f32, rng.unit() as f32] }).collect();
+    let idx = crate::util::probe_indices(w * h, w, rng);
+    let mut s = String::new();
+    let _ = write!(s, "\"ev\":\"c09p\",\"cfg\":{},\"st\":16,\"w\":{w},\"h\":{h},\"rgb\":", c.json());
+    let sel: Vec<[f32; 3]> = idx.iter().map(|&i| px[i]).collect();
+    list(&mut s, &sel, px_bits);
+    let r: Result<(), String> = crate::util::guard_s(|| {
+        let rgb = Rgb::new(px.clone(), w, h, tc(c.tc), cp(c.cp)).map_err(|_| "ctor".to_string())?;
+        let yuv = Yuv::<u16>::try_from((&rgb, c.yuv_config())).map_err(|e| format!("RgbToYuv:{}", crate::frames::err_name_conv(e)))?;
+        let xyb = Xyb::try_from(&yuv).map_err(|e| format!("YuvToXyb:{}", crate::frames::err_name_conv(e)))?;
+        let back = Yuv::<u16>::try_from((xyb, yuv.config())).map_err(|e| format!("XybToYuv:{}", crate::frames::err_name_conv(e)))?;
+        let _ = write!(s, ",\"cfgi\":{},\"cfgo\":{},\"wo\":{},\"ho\":{}", cfg_json_of(&yuv.config()), cfg_json_of(&back.config()), back.width(), back.height());
+        for (key, y) in [("in", &yuv), ("out", &back)] {
+            let pl = [plane_samples(y, 0), plane_samples(y, 1), plane_samples(y, 2)];
+            if pl.iter().any(|p| p.len() != w * h) {
+                return Err("shape".to_string());
+            }
+            let v: Vec<[u16; 3]> = idx.iter().map(|&i| [pl[0][i], pl[1][i], pl[2][i]]).collect();
+            let _ = write!(s, ",\"{key}\":");
+            list(&mut s, &v, |o, t| {
+                let _ = write!(o, "[{},{},{}]", t[0], t[1], t[2]);
+            });
+        }
+        Ok(())
+    });
+    match r {
+        Ok(()) => s.push_str(",\"res\":\"ok\""),
+        Err(e) => {
+            let _ = write!(s, ",\"res\":\"{e}\"");
+        }
+    }
+    sh.emit(&s);
+}
+
 pub fn gen_c09(sh: &mut Shards, o: &Opts, indep: bool) -> serde_json::Value {
+    if !indep {
+        let mut rng = Rng::new(o.seed, 0x0909_b160);
+        for k in 0..(if o.thorough { 40 } else { 8 }) {
+            let c = Cfg { mc: MC_STD[k % 7], tc: TC_SUP[(k * 3 + 1) % 14], cp: [1u8, 4, 5, 6, 7, 8, 9, 11, 12, 22][(k * 7) % 10], full: k % 2 == 1, n: [10u8, 16, 8, 12][k % 4], ssx: 0, ssy: 0 };
+            session_big(sh, &c, &mut rng);
+        }
+    }
     let subs = [(0u8, 0u8), (1, 0), (1, 1), (0, 1), (2, 0), (2, 2)];
     let mut k = (o.seed % 54) as usize;
     let mut n = 0u64;
